@@ -1705,9 +1705,12 @@ impl Ty {
                     sub_ty: expected_sub_ty,
                 },
             ) => {
+                // functional equivalence ignores nominal identity (struct/distinct uids), so it is
+                // only enough when the element is also implicitly accepted (`can_fit_into`)
                 found_size == expected_size
                     && (found_sub_ty.is_weak_replaceable_by(expected_sub_ty)
-                        || found_sub_ty.is_functionally_equivalent_to(expected_sub_ty, false))
+                        || (found_sub_ty.is_functionally_equivalent_to(expected_sub_ty, false)
+                            && found_sub_ty.can_fit_into(expected_sub_ty)))
             }
             (
                 Ty::AnonArray {
@@ -1719,7 +1722,8 @@ impl Ty {
                 },
             ) => {
                 found_sub_ty.is_weak_replaceable_by(expected_sub_ty)
-                    || found_sub_ty.is_functionally_equivalent_to(expected_sub_ty, false)
+                    || (found_sub_ty.is_functionally_equivalent_to(expected_sub_ty, false)
+                        && found_sub_ty.can_fit_into(expected_sub_ty))
             }
             (
                 Ty::Slice {
